@@ -155,6 +155,13 @@ class ShapeEval:
             if isinstance(lv, Num) and isinstance(rv, Num):
                 return _cmp_num(o, lv, rv)
             return None
+        # a bare extent / count used as a condition: true exactly when it is not 0
+        try:
+            v = self.ev(c)
+        except Exception:  # noqa: BLE001
+            return None
+        if isinstance(v, Num):
+            return _cmp_num("!=", v, Num(0))
         return None
 
     def _num_of(self, t: T):
